@@ -97,6 +97,28 @@ def eval_reenc(u: Universe, tc: TypeCase, aval, depth: int, max_full: int, tally
             p = av.project_bp(u.schema, tc.msg, m)
             ok = av.aval_eq(p, exp)
             detail = f"decoded {av.to_jsonable(p)!r}, expected {av.to_jsonable(exp)!r}"
+            if ok and tc.msg.groups:
+                # "the same values": for oneof groups also that NO other member is left behind - the
+                # decoded message and a deep copy of it (rebuilt from every stored value) encode alike,
+                # and unselected members are unreadable
+                import copy as _copy
+                dc = _copy.deepcopy(m)
+                if bytes(dc) != bytes(m):
+                    ok = False
+                    detail = (f"decoded message re-encodes to {bytes(m).hex()[:60]}, its deep copy (rebuilt from the "
+                              f"stored values) to {bytes(dc).hex()[:60]}")
+                else:
+                    import betterproto as _bp
+                    for g, members in tc.msg.groups.items():
+                        sel = _bp.which_one_of(m, g)[0]
+                        for f in members:
+                            if f.name != sel:
+                                try:
+                                    getattr(m, f.name)
+                                    ok = False
+                                    detail = f"oneof {g}: member {f.name} is readable although {sel!r} is selected"
+                                except AttributeError:
+                                    pass
         except Exception as e:
             ok = False
             detail = f"{type(e).__name__}: {e}"[:200]
